@@ -113,18 +113,55 @@ fn small_history(r: &mut Rng) -> (Vec<Op>, String) {
     (ops, format!("degenerate{}", k))
 }
 
+/// corpus of the C04 stream: the witnesses of the recorded findings (run first; they consume no randomness, so the
+/// random histories that follow are the usual ones minus the tail).  All coordinates are exactly representable in f32 too.
+///  * a collinear REPLACEMENT (b, c, p within the 1e-5 tolerance) never re-tests the corner (a, b, p) it exposes:
+///    closed-lt3 (close marks a sliver closed with one vertex and fails), closed-collinear (an exactly straight vertex in a
+///    successfully closed loop), nan-normal (third vertex replaced by a point in line with the first two);
+///  * a spike pop from three to two vertices keeps the cached normal: stale-normal;
+///  * close does not re-test the corners it creates by dropping the last / first vertex: wrap (+ a second close that pops
+///    a vertex of the closed loop), start-spike (exact data), twice (the first close is clean, the second one mutates).
+fn c04_corpus() -> Vec<(Vec<Op>, String)> {
+    let p = |x: f64, y: f64, z: f64, lab: &'static str| Op::Push(Point3D::new(x as Float, y as Float, z as Float), lab);
+    let (e15, e16, e18) = (1.0 / 32768.0, 1.0 / 65536.0, 1.0 / 262144.0);
+    vec![
+        (vec![p(0., 0., 0., "a"), p(1., 0., 0., "b"), p(1., e16, 0., "c"), p(1.5, e18, 0., "replaces-c"), Op::Close],
+         "corpus:closed-lt3".to_string()),
+        (vec![p(-1., -1., 0., "z"), p(0., 0., 0., "a"), p(1., 0., 0., "b"), p(1., e16, 0., "c"), p(1.5, 0., 0., "replaces-c"),
+              p(1.5, 1., 0., "outline"), p(-1., 1., 0., "outline"), Op::Close],
+         "corpus:closed-collinear".to_string()),
+        (vec![p(0., 0., 0., "a"), p(1., 0., 0., "b"), p(1., e16, 0., "c"), p(1.5, 0., 0., "replaces-c"), p(2., 1., 0., "coplanar")],
+         "corpus:nan-normal".to_string()),
+        (vec![p(0., 0., 0., "a"), p(1., 0., 0., "b"), p(1., 1., 0., "c"), p(1., 0., 0., "spike-back"), p(1., 0., 1., "other-plane")],
+         "corpus:stale-normal".to_string()),
+        (vec![p(0., 0., 0., "v0"), p(1., 0., 0., "v1"), p(1., 2., 0., "v2"), p(0., 2., 0., "x"), p(0., 0.25, 0., "y"),
+              p(e15, 0.125, 0., "z"), Op::Close, Op::Close],
+         "corpus:wrap".to_string()),
+        (vec![p(0., 0., 0., "v0"), p(1., 0., 0., "v1"), p(1., 1., 0., "v2"), p(-1., 1., 0., "w"), p(-1., 0., 0., "x"),
+              p(0., 0., 0., "through-start"), p(0.5, 0.5, 0., "spike"), Op::Close],
+         "corpus:start-spike".to_string()),
+        (vec![p(0., 0., 0., "v0"), p(1., 0., 0., "v1"), p(1., 2., 0., "v2"), p(0., 2., 0., "x"), p(e18, 0.25, 0., "y"),
+              p(e15, 0.125, 0., "z"), Op::Close, Op::Close],
+         "corpus:twice".to_string()),
+    ]
+}
+
 pub fn run_c04(seed: u64, n: usize, out: &str) {
     let mut r = Rng::new(seed ^ 0xC04);
     let mut sink = Sink::new(out, "C04", 40);
     #[cfg(feature = "float")]
     { sink.runner = "C04f32".to_string(); }
+    let mut corpus: std::collections::VecDeque<(Vec<Op>, String)> = c04_corpus().into_iter().collect();
     while sink.len() < n {
-        let big = r.chance(0.2);
-        let (ops, note) = if r.chance(0.1) { small_history(&mut r) } else { rand_history(&mut r, if big { 60 } else { 14 }) };
+        let from_corpus = !corpus.is_empty();
+        let (ops, note) = if let Some(c) = corpus.pop_front() { c } else {
+            let big = r.chance(0.2);
+            if r.chance(0.1) { small_history(&mut r) } else { rand_history(&mut r, if big { 60 } else { 14 }) }
+        };
         let mut l = Loop3D::new();
         let mut coq_ops = vec![]; let mut coq_snaps = vec![]; let mut j_ops = vec![]; let mut j_snaps = vec![];
         let mut queue: std::collections::VecDeque<Op> = ops.iter().cloned().collect();
-        let mut own_done = false;
+        let mut own_done = from_corpus;
         while let Some(op) = queue.pop_front() {
             let o = apply_op(&mut l, &op);
             let (k, p, lab) = match &op { Op::Push(p, lab) => (0, *p, *lab), Op::Close => (1, Point3D::new(0.0, 0.0, 0.0), "close") };
